@@ -204,10 +204,16 @@ def build_replay(scratch, prop, o, r, raw, args):
                 rp["counterexamples"] = [dict(check=t["check"], values=t["values"], bytes=t["bytes"],
                                               test_name=t["test_name"], test_src=t["test_src"]) for t in tests]
                 rp["playback_unit"] = pair.unit.name
-                outs = kanirun.playback(scratch, pair, tests)
-                rp["playback"] = outs
-                rp["reproduced"] = any(x["outcome"] in ("panicked", "hang") for x in outs)
-                rp["replay_mismatch"] = bool(tests) and not rp["reproduced"]
+                if pair.extra.get("stubs") == "yes":
+                    # Kani's playback executes the native code WITHOUT verification stubs; a harness whose
+                    # assertions are about what a stub recorded cannot be replayed that way.
+                    rp["playback_skipped"] = ("harness uses kani::stub (call-site contract): the counterexample above is the "
+                                              "verifier's; it is not re-executed natively")
+                else:
+                    outs = kanirun.playback(scratch, pair, tests)
+                    rp["playback"] = outs
+                    rp["reproduced"] = any(x["outcome"] in ("panicked", "hang") for x in outs)
+                    rp["replay_mismatch"] = bool(tests) and not rp["reproduced"]
         except Exception as e:  # replay is best effort; the violation stands on the failed obligation
             rp["replay_error"] = repr(e)
     if o.backend == "kani":
